@@ -362,6 +362,12 @@ def impl_case(case):
                 or e + n != 1 or e != (1 if same else 0):
             viol.append(dict(kind="eq-neq", eq=C.enc_value(e) if ok1 else e, neq=C.enc_value(n) if ok2 else n,
                              bounds_equal=same))
+    elif name in ("==", "!=") and top_ok and len(ivpos) == 1 and len(ops) == 2:
+        # an interval against a number: whatever the answer is, == and != must be negations of each other
+        ok1, e = _dispatch("==", ops)
+        ok2, n = _dispatch("!=", ops)
+        if not (ok1 and ok2) or isinstance(e, bool) or isinstance(n, bool) or e not in (0, 1) or n not in (0, 1) or e + n != 1:
+            viol.append(dict(kind="eq-neq-mixed", eq=C.enc_value(e) if ok1 else e, neq=C.enc_value(n) if ok2 else n))
     elif name in ("±", "tol") and top_ok and not ivpos and len(ops) == 2:
         x, y = _frac(ops[0]), _frac(ops[1])
         if x is not None and y is not None:
